@@ -228,43 +228,44 @@ Theorem C12_circle_image_any_radius : forall (A : Affine R) (c : Circle R) (th :
   = aff_apply A (circle_point (mkCircle (ci_center c) (Rabs (ci_radius c))) th).
 Proof. exact circle_image_abs. Qed.
 
-(** svd: rx >= ry >= 0, rx^2 + ry^2 = a^2+b^2+c^2+d^2, rx ry = |det| ... *)
+(** svd as the tree implements it ([aff_svd_det]: minor radius (|det| / x).min(x), commit 7389fc0):
+    rx >= ry >= 0, rx^2 + ry^2 = a^2+b^2+c^2+d^2, rx ry = |det| ... *)
 Theorem C12_svd_invariants : forall m : Affine R,
-  let r := fst (aff_svd m) in
+  let r := fst (aff_svd_det m) in
   0 <= vy r <= vx r
   /\ vx r * vx r + vy r * vy r = aa m * aa m + ab m * ab m + ac m * ac m + ad m * ad m
   /\ vx r * vy r = Rabs (aff_determinant m).
-Proof. exact svd_invariants. Qed.
+Proof. exact svd_det_invariants. Qed.
 (** ... and R(phi) diag(rx^2, ry^2) R(phi)^T = M M^T for the linear part M, i.e. (radii, phi)
     are the semi-axes and the rotation of the image of the unit circle *)
 Theorem C12_svd_decomposition : forall m : Affine R,
-  let r := fst (aff_svd m) in let phi := snd (aff_svd m) in
+  let r := fst (aff_svd_det m) in let phi := snd (aff_svd_det m) in
   let C := cos phi in let S := sin phi in
   aa m * aa m + ac m * ac m = vx r * vx r * (C * C) + vy r * vy r * (S * S)
   /\ ab m * ab m + ad m * ad m = vx r * vx r * (S * S) + vy r * vy r * (C * C)
   /\ aa m * ab m + ac m * ad m = (vx r * vx r - vy r * vy r) * (S * C).
-Proof. exact svd_decomposition. Qed.
+Proof. exact svd_det_decomposition. Qed.
 
 (** hence (centre, radii, rotation) as reported by [radii_and_rotation] describe the ellipse through the
     image points: for a non-singular inner map every point of the curve satisfies the implicit equation
     (x'/rx)^2 + (y'/ry)^2 = 1 in the reported frame (this covers [Affine * Circle], [Affine * Ellipse]
     and [Ellipse::new]) *)
-Theorem C12_ellipse_implicit : forall (m : Affine R) (th : R),
-  aff_determinant m <> 0 ->
-  let r := fst (aff_svd m) in let phi := snd (aff_svd m) in
-  let p := ellipse_point (mkEllipse m) th in
-  let dx := px p - ae m in let dy := py p - af m in
+Theorem C12_ellipse_implicit : forall (e : Ellipse R) (th : R),
+  aff_determinant (el_inner e) <> 0 ->
+  let r := fst (ellipse_radii_and_rotation e) in let phi := snd (ellipse_radii_and_rotation e) in
+  let p := ellipse_point e th in
+  let dx := px p - px (ellipse_center e) in let dy := py p - py (ellipse_center e) in
   let lx := cos phi * dx + sin phi * dy in let ly := - sin phi * dx + cos phi * dy in
   (lx / vx r) * (lx / vx r) + (ly / vy r) * (ly / vy r) = 1.
-Proof. exact ellipse_implicit. Qed.
+Proof. exact ellipse_det_implicit. Qed.
 (** the radii reported for [Ellipse::new(c, (rx, ry), rot)] are the larger and the smaller of |rx|, |ry| *)
 Theorem C12_ellipse_new_radii : forall (c : Point R) (radii : Vec2 R) (rot : R),
   let r := fst (ellipse_radii_and_rotation (ellipse_new c radii rot)) in
   vx r = Rmax (Rabs (vx radii)) (Rabs (vy radii)) /\ vy r = Rmin (Rabs (vx radii)) (Rabs (vy radii)).
 Proof. exact ellipse_new_radii. Qed.
 
-(** taking the minor radius as |det| / major (proposed_fixes/C10-svd-minor-radius.diff, which
-    cures a floating-point cancellation) is the same function over the reals *)
+(** the svd before that repair (shared [aff_svd], minor radius sqrt(0.5 (s1 - s2)), which cancels on floats)
+    is the same function over the reals *)
 Theorem C12_svd_variants_agree : forall m : Affine R, aff_svd_det m = aff_svd m.
 Proof. exact svd_variants_agree. Qed.
 
